@@ -28,6 +28,7 @@ import (
 	"sync/atomic"
 	"time"
 
+	"github.com/markkurossi/mpc/ot"
 	"github.com/markkurossi/mpc/p2p"
 )
 
@@ -43,6 +44,9 @@ type c19Cfg struct {
 	Late      int
 	StaggerMs int
 	JoinGapMs int
+	// after the mesh has formed: stream this many tagged, numbered records over every
+	// connection in both directions, the receivers starting 200 ms late
+	StreamRecs int
 }
 
 type c19Table struct {
@@ -56,7 +60,15 @@ type c19Ping struct {
 	Tok  []int // sender, sender's peer, sender's c; nil = none arrived
 }
 
+// c19StreamFail: what went wrong on the stream received by party I on Peers[J].Conns[C]
+type c19StreamFail struct {
+	I, J, C int
+	Record  int
+	What    string
+}
+
 type c19Party struct {
+	Stream []c19StreamFail
 	Status int // 0 nil, 1 error, 2 never returned
 	Err    string
 	Ret    *c19Table
@@ -377,6 +389,88 @@ func c19Run(cfg c19Cfg, rng *RNG) ([]c19Party, error) {
 		case <-time.After(300 * time.Millisecond):
 		}
 	}
+	if cfg.StreamRecs > 0 && allOK {
+		// "data sent on the k-th connection arrives there; nothing lost, duplicated": record r
+		// on the link (i -> j, c) is Uint32 tag(i,j,c), Uint32 r and, for every third r, a
+		// Label (tag, r).  The receiver lags behind, so that socket reads end inside fields.
+		nrec := cfg.StreamRecs
+		tag := func(i, j, c int) int { return 0x5a000000 | i<<16 | j<<8 | c }
+		var smu sync.Mutex
+		var sw, rw sync.WaitGroup
+		for s, conn := range conns {
+			sw.Add(1)
+			go func(s slot, conn *p2p.Conn) {
+				defer sw.Done()
+				defer func() { recover() }()
+				var ld ot.LabelData
+				tg := tag(s.i, s.j, s.c)
+				for r := 0; r < nrec; r++ {
+					if conn.SendUint32(tg) != nil || conn.SendUint32(r) != nil {
+						return
+					}
+					if r%3 == 0 {
+						if conn.SendLabel(ot.Label{D0: uint64(tg), D1: uint64(r)}, &ld) != nil {
+							return
+						}
+					}
+				}
+				conn.Flush()
+			}(s, conn)
+			rw.Add(1)
+			go func(s slot, conn *p2p.Conn) {
+				defer rw.Done()
+				failf := func(r int, format string, a ...interface{}) {
+					smu.Lock()
+					res[s.i].Stream = append(res[s.i].Stream, c19StreamFail{I: s.i, J: s.j, C: s.c, Record: r, What: fmt.Sprintf(format, a...)})
+					smu.Unlock()
+				}
+				defer func() {
+					if p := recover(); p != nil {
+						failf(-1, "panic: %v", p)
+					}
+				}()
+				time.Sleep(200 * time.Millisecond)
+				var ld ot.LabelData
+				want := tag(s.j, s.i, s.c) // what the peer sends on its Conns[c] to us
+				for r := 0; r < nrec; r++ {
+					tg, err := conn.ReceiveUint32()
+					if err != nil {
+						failf(r, "receive error: %v", err)
+						return
+					}
+					seq, err := conn.ReceiveUint32()
+					if err != nil {
+						failf(r, "receive error: %v", err)
+						return
+					}
+					if tg != want || seq != r {
+						failf(r, "expected record (tag %#x, seq %d), got (tag %#x, seq %d)", want, r, tg, seq)
+						return
+					}
+					if r%3 == 0 {
+						var l ot.Label
+						if err := conn.ReceiveLabel(&l, &ld); err != nil {
+							failf(r, "receive error: %v", err)
+							return
+						}
+						if l.D0 != uint64(want) || l.D1 != uint64(r) {
+							failf(r, "expected label (%#x, %d), got (%#x, %d)", want, r, l.D0, l.D1)
+							return
+						}
+					}
+				}
+			}(s, conn)
+		}
+		sdone := make(chan struct{})
+		go func() { sw.Wait(); rw.Wait(); close(sdone) }()
+		select {
+		case <-sdone:
+		case <-time.After(20 * time.Second):
+			smu.Lock()
+			res[0].Stream = append(res[0].Stream, c19StreamFail{I: -1, J: -1, C: -1, Record: -1, What: "streams did not finish within 20 s"})
+			smu.Unlock()
+		}
+	}
 	for _, nw := range nws {
 		c19Close(nw)
 	}
@@ -600,6 +694,22 @@ func runC19(c *Ctx) error {
 		c.Hist("mode=" + cfg.Mode)
 
 		symptoms, f11 := c19Oracle(cfg, res)
+		if cfg.StreamRecs > 0 {
+			c.Hist("post-connect-stream")
+			smu := map[string]bool{}
+			for _, p := range res {
+				for _, sf := range p.Stream {
+					key := fmt.Sprintf("c19:post-connect-stream:%d<->%d#%d:corrupted-or-duplicated", sf.I, sf.J, sf.C)
+					if smu[key] {
+						continue
+					}
+					smu[key] = true
+					c.Fail(key, fmt.Sprintf("n=%d k=%d: the mesh formed; %d tagged, numbered records were streamed over every connection in both directions (receivers 200 ms late); party %d, Peers[%d].Conns[%d], record %d: %s",
+						cfg.N, cfg.K, cfg.StreamRecs, sf.I, sf.J, sf.C, sf.Record, sf.What),
+						map[string]interface{}{"cfg": cfg, "failure": sf})
+				}
+			}
+		}
 		input := L(I(cfg.N), I(cfg.K), Ints(cfg.Order), I(cfg.Freeze))
 		obs := c19ObsSX(res)
 		c.Sample(map[string]interface{}{"cfg": cfg, "symptoms": symptoms})
@@ -657,7 +767,8 @@ func runC19(c *Ctx) error {
 	}
 	for x, sp := range lateSpec {
 		lates = append(lates, c19Cfg{N: sp[0], K: sp[1], Order: c19Perm(c.rng, sp[0], x%3), Mode: "late", Late: sp[2],
-			StaggerMs: c.rng.Range(1200, maxSt), JoinGapMs: []int{0, 150, 400}[x%3]})
+			StaggerMs: c.rng.Range(1200, maxSt), JoinGapMs: []int{0, 150, 400}[x%3],
+			StreamRecs: []int{200000, 150000, 0, 0, 250000, 0, 0, 100000, 0, 0}[x%10]})
 	}
 	type lateRes struct {
 		res []c19Party
